@@ -3,6 +3,7 @@ package main
 // The vf* harness API as seen by the engine.
 
 import (
+	"sync"
 	"fmt"
 	"go/types"
 	"math/big"
@@ -107,14 +108,13 @@ func (in *Interp) noteMapAccess(fr *frame, m *smap, write bool) {
 	in.logAccess(fr, fmt.Sprintf("map%d(%s)", m.id, shortType(m.t)), m.id, write)
 }
 
-func (in *Interp) sleep(g *goroutine) {
+func (in *Interp) sleep(g *goroutine, d int64) {
 	// time.Sleep is a scheduling point: let others run, then continue.
-	in.sleeps++
-	if in.sleeps > in.w.cfg.Unwind*4 {
-		panic(pathAbort{kind: "unwinding", msg: "too many time.Sleep calls (polling loop?)"})
-	}
 	if g == nil {
 		g = in.cur
+	}
+	if d > 0 {
+		in.vclock += d
 	}
 	var next *goroutine
 	for _, o := range in.gs {
@@ -122,6 +122,28 @@ func (in *Interp) sleep(g *goroutine) {
 			next = o
 			break
 		}
+	}
+	if next == nil {
+		// Nothing else can run: a polling loop.  With a registered deadline still ahead, virtual
+		// time jumps to it (timeouts fire only when no goroutine can make progress otherwise).
+		var nd int64 = -1
+		for _, t := range in.vdeadlines {
+			if t > in.vclock && (nd < 0 || t < nd) {
+				nd = t
+			}
+		}
+		if nd >= 0 {
+			in.vclock = nd
+			return
+		}
+	}
+	in.sleeps++
+	lim := in.w.cfg.MaxSleeps
+	if lim == 0 {
+		lim = in.w.cfg.Unwind * 4
+	}
+	if in.sleeps > lim {
+		panic(pathAbort{kind: "unwinding", msg: "too many time.Sleep calls (polling loop?)"})
 	}
 	if next == nil {
 		return
@@ -160,6 +182,13 @@ func vfIntrinsic(fn *ssa.Function, base string) extFn {
 		}
 	}
 	switch base {
+	case "vfVNow":
+		return func(fr *frame, a []value) value { return fr.in.vclock }
+	case "vfVDeadline":
+		return func(fr *frame, a []value) value {
+			fr.in.vdeadlines = append(fr.in.vdeadlines, fr.in.asInt64(a[0]))
+			return nil
+		}
 	case "vfU64":
 		return mkInt("u64", 64, types.Typ[types.Uint64])
 	case "vfU32":
@@ -381,6 +410,41 @@ func vfIntrinsic(fn *ssa.Function, base string) extFn {
 			}
 			return validPrefix6(s)
 		}
+	case "vfReMatch":
+		// vfReMatch(pattern, s, kind): POSIX-syntax match as ytypes does it.  Concrete s: decided by the host's
+		// regexp package.  Symbolic s: strings of a kind are rendered as members of that kind, so the answer is
+		// "kind of s == kind"; a free symbolic string is unsupported.
+		return func(fr *frame, a []value) value {
+			in := fr.in
+			pat := concStr(in, a[0], "vfReMatch pattern")
+			kind := concStr(in, a[2], "vfReMatch kind")
+			if s, ok := a[1].(string); ok {
+				var re *regexp.Regexp
+				if c, ok := posixReCache.Load(pat); ok {
+					re = c.(*regexp.Regexp)
+				} else {
+					re = regexp.MustCompilePOSIX(pat)
+					posixReCache.Store(pat, re)
+				}
+				return re.MatchString(s)
+			}
+			sym, ok := a[1].(*Sym)
+			if !ok {
+				in.unsupported("vfReMatch on %T", a[1])
+			}
+			for _, r := range in.inputs {
+				if r.term == sym.T {
+					if r.kind == "str:"+kind {
+						return true
+					}
+					if _, kinded := strKindBase[strings.TrimPrefix(r.kind, "str:")]; kinded || r.kind == "str:ni" {
+						return false
+					}
+				}
+			}
+			in.unsupported("pattern match on a free symbolic string")
+			return false
+		}
 	case "vfModelUnsupported":
 		return func(fr *frame, a []value) value {
 			fr.in.unsupported("model does not cover: %v", a[0])
@@ -391,6 +455,8 @@ func vfIntrinsic(fn *ssa.Function, base string) extFn {
 	}
 	return nil
 }
+
+var posixReCache sync.Map
 
 var re4 = regexp.MustCompile(`^(([0-9]|[1-9][0-9]|1[0-9][0-9]|2[0-4][0-9]|25[0-5])\.){3}([0-9]|[1-9][0-9]|1[0-9][0-9]|2[0-4][0-9]|25[0-5])/([0-9]|[1-2][0-9]|3[0-2])$`)
 
